@@ -622,3 +622,124 @@ Proof.
     + reflexivity.
     + exfalso. eapply sc_algo_no_error; eassumption.
 Qed.
+
+(* ============================================================================================== *)
+(* 10. the mirror of is_single_crossing_conflict_sets equals the proved reference                  *)
+(* ============================================================================================== *)
+Lemma pair_eqb_eq p q : pair_eqb p q = true <-> p = q.
+Proof.
+  destruct p as [a b], q as [c d]. unfold pair_eqb. cbn [fst snd].
+  rewrite andb_true_iff, !N.eqb_eq. split; [intros [-> ->]; reflexivity|intros E; injection E; auto].
+Qed.
+
+Lemma subsetb_spec s t : subsetb s t = true <-> incl s t.
+Proof.
+  unfold subsetb. rewrite forallb_forall. split.
+  - intros H p Hp. specialize (H p Hp). apply existsb_exists in H. destruct H as (q & Hq & E).
+    apply pair_eqb_eq in E. now subst.
+  - intros H p Hp. apply existsb_exists. exists p. split; [now apply H|now apply pair_eqb_eq].
+Qed.
+
+Section ConflictMirror.
+Variable alts : list N.
+Hypothesis alts_nodup : NoDup alts.
+
+Lemma cond_conflict v o a b : Permutation alts v -> Permutation alts o -> In a alts -> In b alts -> a <> b ->
+  (prefers v a b && prefers o b a) || (prefers v b a && prefers o a b) = conflict v o a b.
+Proof.
+  intros Hv Ho Ha Hb Hne. unfold conflict.
+  rewrite (prefers_total v a b), (prefers_total o a b); try assumption;
+    try (eapply Permutation_in; eassumption).
+  destruct (prefers v a b), (prefers o a b); reflexivity.
+Qed.
+
+Lemma minmax_same a b c d : N.min a b = N.min c d -> N.max a b = N.max c d ->
+  (a = c /\ b = d) \/ (a = d /\ b = c).
+Proof. lia. Qed.
+
+Lemma conflict_set_In v o x y : Permutation alts v -> Permutation alts o ->
+  (In (x, y) (conflict_set v o) <->
+   exists a b, In (a, b) (pairs v) /\ conflict v o a b = true /\ x = N.min a b /\ y = N.max a b).
+Proof.
+  intros Hv Ho. unfold conflict_set. rewrite in_flat_map. split.
+  - intros ([a b] & Hp & Hin). cbn [fst snd] in Hin.
+    pose proof (pairs_In a b v Hp) as [Ha Hb].
+    pose proof (pairs_neq a b v (Permutation_NoDup Hv alts_nodup) Hp) as Hne.
+    assert (Ha' : In a alts) by (eapply Permutation_in; [apply Permutation_sym; exact Hv|exact Ha]).
+    assert (Hb' : In b alts) by (eapply Permutation_in; [apply Permutation_sym; exact Hv|exact Hb]).
+    rewrite (cond_conflict v o a b Hv Ho Ha' Hb' Hne) in Hin.
+    destruct (conflict v o a b) eqn:E; [|contradiction].
+    destruct Hin as [Hin|[]]. injection Hin as <- <-. exists a, b. auto.
+  - intros (a & b & Hp & Hc & -> & ->). exists (a, b). split; [assumption|]. cbn [fst snd].
+    pose proof (pairs_In a b v Hp) as [Ha Hb].
+    pose proof (pairs_neq a b v (Permutation_NoDup Hv alts_nodup) Hp) as Hne.
+    assert (Ha' : In a alts) by (eapply Permutation_in; [apply Permutation_sym; exact Hv|exact Ha]).
+    assert (Hb' : In b alts) by (eapply Permutation_in; [apply Permutation_sym; exact Hv|exact Hb]).
+    rewrite (cond_conflict v o a b Hv Ho Ha' Hb' Hne), Hc. now left.
+Qed.
+
+Lemma subset_conf_sub v j k : Permutation alts v -> Permutation alts j -> Permutation alts k ->
+  subsetb (conflict_set v j) (conflict_set v k) = conf_sub alts v j k.
+Proof.
+  intros Hv Hj Hk.
+  assert (Hin : forall o x, Permutation alts o -> In x alts -> In x o) by (intros o x Ho Hx; eapply Permutation_in; eassumption).
+  assert (E : subsetb (conflict_set v j) (conflict_set v k) = true <-> conf_sub alts v j k = true).
+  { rewrite subsetb_spec, conf_sub_spec. split.
+    - intros H a b Ha Hb Hc.
+      destruct (N.eq_dec a b) as [->|Hne]; [unfold conflict in Hc; rewrite !prefers_same in Hc; discriminate|].
+      assert (Hgen : forall a b, In (a, b) (pairs v) -> conflict v j a b = true -> conflict v k a b = true).
+      { intros a0 b0 Hp Hc0.
+        assert (Hm : In (N.min a0 b0, N.max a0 b0) (conflict_set v k)).
+        { apply H. apply (conflict_set_In v j); try assumption. exists a0, b0. auto. }
+        apply (conflict_set_In v k) in Hm; try assumption. destruct Hm as (c & d & Hp' & Hc' & E1 & E2).
+        destruct (minmax_same a0 b0 c d E1 E2) as [[-> ->]|[-> ->]]; [assumption|].
+        pose proof (pairs_In c d v Hp') as [Hc1 Hd1].
+        rewrite (conflict_sym v k d c); auto; eapply Permutation_in; try eassumption;
+          eapply Permutation_in; try (apply Permutation_sym; exact Hv); assumption. }
+      destruct (pairs_cover a b v (Hin v a Hv Ha) (Hin v b Hv Hb) Hne) as [Hp|Hp].
+      + now apply Hgen.
+      + rewrite (conflict_sym v k a b) by auto. apply Hgen; [assumption|].
+        rewrite (conflict_sym v j b a) by auto. assumption.
+    - intros H [x y] Hxy. apply (conflict_set_In v j) in Hxy; try assumption.
+      destruct Hxy as (a & b & Hp & Hc & -> & ->). apply (conflict_set_In v k); try assumption.
+      exists a, b. repeat split; try assumption.
+      pose proof (pairs_In a b v Hp) as [Ha Hb].
+      apply H; try assumption; eapply Permutation_in; try (apply Permutation_sym; exact Hv); assumption. }
+  destruct (subsetb _ _), (conf_sub alts v j k); try reflexivity.
+  - symmetry. now apply E.
+  - now apply E.
+Qed.
+End ConflictMirror.
+
+Lemma forallb_ext_in' {T} (f g : T -> bool) l : (forall x, In x l -> f x = g x) -> forallb f l = forallb g l.
+Proof.
+  induction l as [|x t IH]; intros H; [reflexivity|]. simpl. rewrite (H x) by now left.
+  rewrite IH; [reflexivity|]. intros y Hy. apply H. now right.
+Qed.
+
+Lemma existsb_ext_in' {T} (f g : T -> bool) l : (forall x, In x l -> f x = g x) -> existsb f l = existsb g l.
+Proof.
+  induction l as [|x t IH]; intros H; [reflexivity|]. simpl. rewrite (H x) by now left.
+  rewrite IH; [reflexivity|]. intros y Hy. apply H. now right.
+Qed.
+
+Lemma sc_with_first_chain alts orders v : wf_profile alts orders -> In v orders ->
+  sc_with_first v orders = chain_from alts orders v.
+Proof.
+  intros (Hna & _ & Hwf) Hv. rewrite Forall_forall in Hwf. unfold sc_with_first, chain_from.
+  apply forallb_ext_in'. intros j Hj. apply forallb_ext_in'. intros k Hk.
+  rewrite (subset_conf_sub alts Hna v j k), (subset_conf_sub alts Hna v k j); auto.
+Qed.
+
+(* the literal mirror of is_single_crossing_conflict_sets is the proved polynomial reference *)
+Theorem conflict_sets_algo_eq alts orders : wf_profile alts orders -> orders <> [] ->
+  conflict_sets_algo orders = sc_conflict_decide alts orders.
+Proof.
+  intros Hwf Hne. unfold conflict_sets_algo, sc_conflict_decide.
+  destruct orders as [|o0 rest] eqn:E; [contradiction|]. rewrite <- E in *.
+  apply existsb_ext_in'. intros v Hv. now apply sc_with_first_chain.
+Qed.
+
+Corollary conflict_sets_algo_correct alts orders : wf_profile alts orders -> orders <> [] ->
+  (conflict_sets_algo orders = true <-> SC alts orders).
+Proof. intros Hwf Hne. rewrite (conflict_sets_algo_eq alts orders Hwf Hne). apply sc_conflict_decide_correct. Qed.
